@@ -200,4 +200,28 @@ def rule_samples(rng, per_rule=12):
                 continue
             out.append(x)
             out.append(rng.choice(['select a ', 'x\n', '(', 'a;']) + x + rng.choice([' b from t', '\n1', ')', ';c', '']))
+            if rng.random() < 0.3:
+                out.append(x + rng.choice([' ', '\n', ' x ']) + x)           # the same sample twice (an opener meets its own closer again)
+    return out
+
+
+def compat_keyword_inputs(rng, n=60):
+    """table keywords written in Unicode compatibility characters (full-width letters and digits, superscript digits):
+    whatever the lexer makes of such a word, its value is the text that was written"""
+    from . import extract
+    words = sorted(w for w in extract.all_keyword_words() if w.isalnum())
+    pick = [w for w in ('SELECT', 'FROM', 'INT8', 'WHERE', 'ORDER', 'NULL') if w in words] + rng.sample(words, min(n, len(words)))
+
+    def wide(c):
+        if 'A' <= c <= 'Z' or 'a' <= c <= 'z' or '0' <= c <= '9':
+            return chr(ord(c) - 0x21 + 0xff01)
+        return c
+    sup = {'0': '\u2070', '1': '\u00b9', '2': '\u00b2', '3': '\u00b3', '4': '\u2074', '5': '\u2075', '6': '\u2076', '7': '\u2077', '8': '\u2078', '9': '\u2079'}
+    out = []
+    for w in pick:
+        for v in (w.lower(), w.capitalize()):
+            full = ''.join(wide(c) for c in v)
+            out += [full, 'select ' + full + ' from t', v[:1] + ''.join(wide(c) for c in v[1:])]
+            if any(c.isdigit() for c in v):
+                out.append(''.join(sup.get(c, c) for c in v) + ' x')
     return out
